@@ -112,6 +112,8 @@ def gen_pool(rng, index, n_ids, max_versions, kinds, digits_mixed=False, version
             if ver == '2.0':
                 e['created_us'] = tsparse.trunc_ms(e['created_us'])
         e['versions'] = mods
+        if kind in ('sdo', 'unreg', 'custom') and rng.random() < 0.12:
+            e['big'] = rng.choice([9000, 20000, 70000])      # serialises to more than one write buffer
         pool.append(e)
     return pool
 
@@ -127,6 +129,8 @@ def content(pool, k, j):
             d['created_by_ref'] = C.mkid('identity', pool[e['creator']]['id_n'])
         if kind == 'identity':
             d['name'] = 'identity %d v%d' % (e['id_n'], j)
+        if e.get('big'):
+            d['labels'] = d['labels'] + ['L' * e['big']]
         return d
     if kind == 'rel':
         d = C.build(ver, 'relationship', e['id_n'], e['created_us'], e['versions'][j])
@@ -151,12 +155,12 @@ def content(pool, k, j):
         d['definition'] = {'statement': 'Copyright %d' % e['id_n']}
         return d
     if kind == 'custom':
-        d = {'type': 'x-sim-widget', 'id': C.mkid('x-sim-widget', e['id_n']), 'name': 'widget v%d' % j, 'size': j}
+        d = {'type': 'x-sim-widget', 'id': C.mkid('x-sim-widget', e['id_n']), 'name': 'widget v%d' % j + 'W' * e.get('big', 0), 'size': j}
         _stamp(d, e, j, 3 if ver == '2.0' else None)
         return d
     if kind == 'unreg':
         d = {'type': 'x-unreg-thing', 'id': C.mkid('x-unreg-thing', e['id_n']), 'name': 'thing v%d' % j,
-             'x_list': [1, 2, {'a': 'b'}]}
+             'x_list': [1, 2, {'a': 'b' * (1 + e.get('big', 0))}]}
         if e['versions']:
             _stamp(d, e, j, e.get('digits', 3))
         else:
@@ -344,4 +348,4 @@ READ_FAULTS = [('EIO', 'listdir'), ('EIO', 'stat'), ('EIO', 'open_r'), ('EACCES'
 def gen_fault(rng, table, max_nth=4):
     kind, callk = rng.choice(table)
     return {'kind': kind, 'call': callk, 'nth': rng.choice([0, 0, 1, 1, 2, 3][:max_nth + 2]),
-            'frac': rng.choice([0.0, 0.01, 0.3, 0.5, 0.9, 0.999]), 'chunk': 0}
+            'frac': rng.choice([0.0, 0.01, 0.3, 0.5, 0.9, 0.999]), 'chunk': rng.choice([0, 0, 0, 1, 2])}
